@@ -1,8 +1,12 @@
 package main
 
 import (
+	"crypto/sha1"
+	"encoding/hex"
 	"fmt"
 	"math/rand"
+	"sync"
+	"sync/atomic"
 
 	"github.com/tidwall/geojson"
 	"github.com/tidwall/geojson/geometry"
@@ -169,44 +173,88 @@ func c08(args []string) error {
 		return err
 	}
 	defer ev.Close()
-	rng := rand.New(rand.NewSource(int64(seed)))
 	runs := optRuns()
-	parses, acceptedDocs := 0, 0
-	for _, r := range rows {
-		for k := 0; k < nrender; k++ {
-			ro := renderOpts{table: tokenTables[(k+r.b)%len(tokenTables)]}
-			if k > 0 {
-				ro.rng, ro.spaces = rng, rng.Intn(2) == 0
-			}
-			text := r.ast.Text(ro)
-			probes := c08probes(ro.table)
-			if o0, err0 := geojson.Parse(text, nil); err0 == nil {
-				probes = append(probes, docProbes(o0)...)
-			}
-			var recs []obj
-			for _, run := range runs {
-				po := run.po
-				o, perr := geojson.Parse(text, &po)
-				parses++
-				rec := obj{"name": run.name, "class": run.class, "accepted": perr == nil, "json": "", "obs": "", "ans": "", "circle": false, "valid": false}
-				if perr == nil {
-					rec["json"] = o.JSON()
-					rect := o.Rect()
-					rec["obs"] = fmt.Sprint(rect, o.Empty(), o.Valid(), o.NumPoints())
-					rec["ans"] = predicateAnswers(o, probes)
-					if nullOrdinate(r.ast) { // a null ordinate is read as NaN: outside "numbers finite"; predicates on NaN are not compared
-						rec["ans"] = "not compared: the document has a null ordinate"
-					}
-					_, isCircle := o.(*geojson.Circle)
-					rec["circle"] = isCircle
-					rec["valid"] = validStd(o) // RequireValid speaks about the nine standard types: a Circle feature is its Point, at any depth
+	var parses, acceptedDocs int64
+	// rows are independent: sixteen workers, events emitted in row order
+	results := make([][]obj, len(rows))
+	var wg sync.WaitGroup
+	sem := make(chan struct{}, 16)
+	for ri := range rows {
+		ri, r := ri, rows[ri]
+		wg.Add(1)
+		sem <- struct{}{}
+		go func() {
+			defer func() { <-sem; wg.Done() }()
+			rng := rand.New(rand.NewSource(int64(seed)*1000003 + int64(ri)))
+			emit := func(e obj) { results[ri] = append(results[ri], e) }
+			for k := 0; k < nrender; k++ {
+				ro := renderOpts{table: tokenTables[(k+r.b)%len(tokenTables)]}
+				if k > 0 {
+					ro.rng, ro.spaces = rng, rng.Intn(2) == 0
 				}
-				recs = append(recs, rec)
+				text := r.ast.Text(ro)
+				gen := 1
+			again:
+				probes := c08probes(ro.table)
+				if o0, err0 := geojson.Parse(text, nil); err0 == nil {
+					probes = append(probes, docProbes(o0)...)
+				}
+				var recs []obj
+				for _, run := range runs {
+					po := run.po
+					o, perr := geojson.Parse(text, &po)
+					atomic.AddInt64(&parses, 1)
+					rec := obj{"name": run.name, "class": run.class, "accepted": perr == nil, "json": "", "obs": "", "ans": "", "circle": false, "valid": false}
+					if perr == nil {
+						rec["json"] = o.JSON()
+						rect := o.Rect()
+						rec["obs"] = fmt.Sprint(rect, o.Empty(), o.Valid(), o.NumPoints())
+						rec["ans"] = predicateAnswers(o, probes)
+						if nullOrdinate(r.ast) { // a null ordinate is read as NaN: outside "numbers finite"; predicates on NaN are not compared
+							rec["ans"] = "not compared: the document has a null ordinate"
+						}
+						_, isCircle := o.(*geojson.Circle)
+						rec["circle"] = isCircle
+						rec["valid"] = validStd(o) // RequireValid speaks about the nine standard types: a Circle feature is its Point, at any depth
+					}
+					recs = append(recs, rec)
+				}
+				if recs[0]["accepted"] == true {
+					atomic.AddInt64(&acceptedDocs, 1)
+				}
+				canon, _ := recs[0]["json"].(string)
+				// the trace specification only compares these texts for equality: a field on which all accepting runs agree is
+				// logged as its digest (the texts are kept in full wherever two runs differ, for the report)
+				for _, f := range []string{"json", "ans"} {
+					distinct := map[string]bool{}
+					for _, rec := range recs {
+						if rec["accepted"] == true {
+							distinct[rec[f].(string)] = true
+						}
+					}
+					if len(distinct) == 1 {
+						for _, rec := range recs {
+							if rec["accepted"] == true {
+								sum := sha1.Sum([]byte(rec[f].(string)))
+								rec[f] = "sha1:" + hex.EncodeToString(sum[:8])
+							}
+						}
+					}
+				}
+				emit(obj{"op": "opts", "doc": r.rawAST, "b": r.b, "text": clip(text, 300), "table": (k + r.b) % len(tokenTables), "runs": recs, "generation": gen})
+				// second generation: the library's own serialisation of the document (what a server reloads) goes through the same
+				// option product - a text that is byte for byte what the writers produce may take other paths through Parse
+				if gen == 1 && k == 0 && recs[0]["accepted"] == true && canon != text && !nullOrdinate(r.ast) {
+					text, gen = canon, 2
+					goto again
+				}
 			}
-			if recs[0]["accepted"] == true {
-				acceptedDocs++
-			}
-			ev.Emit(obj{"op": "opts", "doc": r.rawAST, "b": r.b, "text": clip(text, 300), "table": (k + r.b) % len(tokenTables), "runs": recs})
+		}()
+	}
+	wg.Wait()
+	for _, es := range results {
+		for _, e := range es {
+			ev.Emit(e)
 		}
 	}
 	printJSON(obj{"docs": len(rows), "parses": parses, "events": ev.N, "accepted_by_default_options": acceptedDocs, "option_sets": len(runs)})
